@@ -151,6 +151,17 @@ theorem named_dimensions_sorted (dims : List String) : sortedLe (determineTagNam
   | nil => rfl
   | cons d ds ih => exact sortedLe_insertSorted d _ ih
 
+/-- A dimension listed twice (`groupBy('host','host')`) is kept twice on the stream edge, and the window node drops
+the duplicate when it builds the batch header (`NewBeginBatchMessage` takes the sorted tag KEYS): the same tag values
+are spelled by two different ids on the two edges. Within one dimension list identity is unaffected (none of the
+identity theorems assumes distinct dimensions); ids are only comparable between messages carrying the same list. -/
+theorem duplicate_dimension_respells_id :
+    let p : GPoint := { byName := false, name := "m", tags := [("host", "A")], dims := ["host", "host"] }
+    let q : GPoint := { byName := false, name := "m", tags := [("host", "A")], dims := ["host"] }
+    idOf p = "host=A,host=A" ∧ idOf q = "host=A" ∧ sameGroup p q = false ∧
+    sameGroup p { p with tags := [("host", "A"), ("x", "1")] } = true := by
+  decide
+
 /-! ## Part 2 — isolation -/
 
 /-- **Non-interference of the demultiplexer** (generic): for EVERY grouped receiver whose node-wide state is
